@@ -414,6 +414,7 @@ func (m *Machine) DisposeForce() {
 
 func (m *Machine) doDispose(force bool) {
 	// fmt.Println("doDispose " + m.Id())
+	verifPoint("dispose.entry", m)
 	if m.disposed.Load() {
 		// already disposed
 		return
@@ -430,10 +431,12 @@ func (m *Machine) doDispose(force bool) {
 		case <-whenIdle:
 		}
 	}
+	verifPoint("dispose.afterQueueWait", m)
 	if !m.disposed.CompareAndSwap(false, true) {
 		// already disposed
 		return
 	}
+	verifPoint("dispose.afterDisposedCas", m)
 
 	m.tracersMx.RLock()
 	for i := range m.tracers {
@@ -477,6 +480,7 @@ func (m *Machine) doDispose(force bool) {
 	// dispose chans
 
 	close(m.errInternal)
+	verifPoint("dispose.beforeSubs", m)
 	m.subs.dispose()
 	for _, mut := range m.queue {
 		if !mut.IsCheck {
@@ -512,6 +516,7 @@ func (m *Machine) doDispose(force bool) {
 	// the end
 	m.cancel()
 	// fmt.Println("DISPOSED " + m.Id())
+	verifPoint("dispose.beforeWhenDisposed", m)
 	closeSafe(m.whenDisposed)
 }
 
@@ -1354,6 +1359,7 @@ func (m *Machine) queueMutation(
 	mut.QueueTickNow = m.queueTick
 	// fmt.Printf("mut.QueueTickNow %d\n", mut.QueueTickNow)
 	m.queueMx.Unlock()
+	verifPoint("queue.appended", m)
 
 	// tracers
 	m.log(LogOps, "[queue:%s] %s%s", mutType, j(statesParsed),
@@ -2044,6 +2050,7 @@ func (m *Machine) processQueue() Result {
 
 	// try to acquire the lock TODO safer locking for handler deadlines?
 	if !m.queueProcessing.CompareAndSwap(false, true) {
+		verifPoint("pq.casLost", m)
 
 		m.queueMx.Lock()
 		defer m.queueMx.Unlock()
@@ -2121,6 +2128,7 @@ func (m *Machine) processQueue() Result {
 		} else if t.IsAccepted.Load() && !t.Mutation.IsCheck {
 			// TODO optimize process only when ticks change (incl queue tick)
 			// TODO optimize: check sub ctxs also on canceled txs
+			verifPoint("pq.beforeSubs", m)
 			m.processSubscriptions(t)
 		}
 
@@ -2128,9 +2136,11 @@ func (m *Machine) processQueue() Result {
 	}
 
 	// release the locks
+	verifPoint("pq.loopExit", m)
 	m.t.Store(nil)
 	m.queueProcessing.Store(false)
 	m.queueRunning.Store(false)
+	verifPoint("pq.released", m)
 
 	// tracers
 	m.tracersMx.RLock()
